@@ -19,7 +19,11 @@ PROPERTY = "C18"
 RULE = ("plain frames: 14 valid APDUs x {TDataGroup,TDataTagGroup,TDataBroadcast} x keyed/unkeyed x Data Secure on/off x claimed sender {known, the interface's own address, unknown, 0.0.0}; "
         "authenticated-malformed: APDUs of length 0 and 1, all 1024 APCI codes with payload lengths 0,1,2,3,5,8,12 "
         "(thorough: more) kept when APCI.from_knx refuses them, both algorithms; outgoing to keyed/unkeyed/individual; "
-        "random junk in SCF/ASDU; non-trivial = distinct cases")
+        "random junk in SCF/ASDU; ROUND 3: histories on ONE CEMIHandler through the real data_secure_init(keyring) - 2..4 "
+        "segments, keyrings built programmatically over a pool of 4 group addresses (subsets, changed keys, no keys), "
+        "None, the same keyring twice, and the repo's DataSecure_usb / DataSecure_only_one_interface test keyrings; "
+        "per segment plain and secured incoming frames and outgoing telegrams to pool addresses; "
+        "non-trivial = distinct cases")
 TRUSTED = [
     "innerOk is computed by calling APCI.from_knx on the plaintext the harness chose (C04 owns that parser)",
     "which octet strings are L_Data frames is decided by xknx's cEMI parser (C12/C13)",
@@ -30,6 +34,165 @@ KEY = bytes(range(1, 17))
 DST_KEYED, DST_FREE = 0x0A03, 0x0A04
 SRC = 0x1101
 OWN = 0x1234    # current_address of every XKNX the harness builds
+
+
+# ---- round 3: one handler across data_secure_init() calls -------------------------------------------------
+GA_POOL = [0x0001, 0x0003, 0x0A03, 0xFFFF]       # 0/0/1, 0/0/3, 1/2/3, 31/7/255 (the repo's test keyrings key 1, 3, 0xFFFF)
+KEYFILES = {"usb": "DataSecure_usb.knxkeys", "one": "DataSecure_only_one_interface.knxkeys"}
+_KEYFILE_CACHE = {}
+
+
+def keyring_of(spec):
+    """A real `Keyring` object: built programmatically, or loaded from the repo's test resources."""
+    import os
+    from pathlib import Path
+    from xknx.secure.keyring import Keyring, XMLDevice, XMLGroupAddress, sync_load_keyring
+    if spec["type"] == "none":
+        return None
+    if spec["type"] == "file":
+        if spec["name"] not in _KEYFILE_CACHE:
+            repo = Path(os.environ.get("XKNX_REPO", "/repo"))
+            _KEYFILE_CACHE[spec["name"]] = sync_load_keyring(
+                repo / "test/secure_tests/resources" / KEYFILES[spec["name"]], "test")
+        return _KEYFILE_CACHE[spec["name"]]
+    kr = Keyring()
+    for ga, key in spec["keys"].items():
+        g = XMLGroupAddress()
+        g.address = GroupAddress(int(ga))
+        g.decrypted_key = bytes.fromhex(key)
+        kr.group_addresses.append(g)
+    for ia, seq in spec["devices"].items():
+        d = XMLDevice()
+        d.individual_address = IndividualAddress(int(ia))
+        d.sequence_number = seq
+        kr.devices.append(d)
+    return kr
+
+
+def tables_of(kr):
+    """(group key table, sender table) as plain dicts - what the keyring declares."""
+    if kr is None:
+        return None, None
+    return ({ga.raw: k for ga, k in kr.get_data_secure_group_keys().items()},
+            {ia.raw: s for ia, s in kr.get_data_secure_senders().items()})
+
+
+def gen_reinit(rng):
+    keypool = {ga: rng.randbytes(16).hex() for ga in GA_POOL}
+    segs, prev = [], None
+    for i in range(rng.choice([2, 2, 3, 4])):
+        t = rng.choice(["rand"] * 6 + ["none", "same", "file_usb", "file_one", "nokeys"])
+        if t == "same" and prev is not None:
+            spec = prev
+        elif t == "none":
+            spec = {"type": "none"}
+        elif t.startswith("file_"):
+            spec = {"type": "file", "name": t[5:]}
+        else:
+            gas = [] if t == "nokeys" else rng.sample(GA_POOL, rng.randrange(1, len(GA_POOL) + 1))
+            spec = {"type": "rand",
+                    "keys": {str(ga): (keypool[ga] if rng.random() < 0.7 else rng.randbytes(16).hex()) for ga in gas},
+                    "devices": {str(SRC): rng.choice([0, 5, 1000])} if rng.random() < 0.8 else {}}
+        prev = spec
+        evs = []
+        for _ in range(rng.randrange(1, 6)):
+            k = rng.choice(["in", "in", "in", "out", "out", "outp2p", "sec"])
+            dst = rng.choice(GA_POOL)
+            if k == "in":
+                evs.append({"e": "in", "dst": dst, "apdu": rng.choice(["0081", "0080aabb", "0000"])})
+            elif k == "out":
+                evs.append({"e": "out", "dst": dst, "group": 1, "apdu": rng.choice(["0081", "0080aabb"])})
+            elif k == "outp2p":
+                evs.append({"e": "out", "dst": 0x1105, "group": 0, "apdu": "0300"})
+            else:
+                evs.append({"e": "sec", "dst": dst, "apdu": "0081", "seq": rng.choice([1, 6, 2000, 2**40])})
+        segs.append({"keyring": spec, "clock": 1000 * (10 + 7 * i + rng.randrange(5)), "events": evs})
+    return {"kind": "reinit", "segments": segs}
+
+
+def run_reinit(c):
+    import time as _t
+    from xknx.secure import data_secure as dsmod
+    (x, issues), _ = mk_xknx(OWN, None, {}, 1), None
+    recs, toks = [], []
+    for seg in c["segments"]:
+        kr = keyring_of(seg["keyring"])
+        keys, senders = tables_of(kr)
+        real_time = _t.time
+        _t.time = lambda: dsmod._SEQUENCE_NUMBER_INIT_TIMESTAMP + seg["clock"] // 1000   # -> counter = clock exactly
+        try:
+            x.cemi_handler.data_secure_init(kr)
+            recs.append("init on" if x.cemi_handler.data_secure is not None else "init off")
+        except DataSecureError:
+            recs.append("init error")
+        finally:
+            _t.time = real_time
+        toks.append("i;none;-;0" if kr is None else
+                    f"i;{fmt_keys({g: k for g, k in keys.items()}) if keys else '-'};{fmt_table(senders)};{seg['clock']}")
+        for e in seg["events"]:
+            ds = x.cemi_handler.data_secure
+            if e["e"] == "out":
+                dst = GroupAddress(e["dst"]) if e["group"] else IndividualAddress(e["dst"])
+                tg = Telegram(destination_address=dst, payload=APCI.from_knx(unhx(e["apdu"])))
+                cemi, exc = send(x, tg)
+                if exc:
+                    recs.append("dserror" if exc == "dsec" else f"raised {exc}")
+                elif isinstance(cemi.data.payload, apci.SecureAPDU):
+                    recs.append(f"secured {hx(cemi.data.payload.to_knx())} {ds._sequence_number_sending}")
+                else:
+                    recs.append("plain")
+                toks.append(f"s;{0xBCE0 if e['group'] else 0xB060};{OWN};{e['dst']};0;P;{e['apdu']}")
+                continue
+            apdu = unhx(e["apdu"])
+            if e["e"] == "sec":
+                key = (keys or {}).get(e["dst"]) or bytes(16)
+                scf = scf_raw(ALG_ENC)
+                sd = SecureData.init_from_plain_apdu(
+                    key=key, apdu=apdu, scf=mk_scf(scf), sequence_number=e["seq"],
+                    address_fields_raw=addr_fields(SRC, e["dst"]), address_type=CEMIAddressType.GROUP,
+                    frame_format=CEMIFrameFormat.STANDARD, tpci=tpci.TDataGroup())
+                apdu = bytes([0x03, 0xF1, scf]) + sd.to_knx()
+                body = f"S;{hx(apdu)}"
+            else:
+                body = f"P;{e['apdu']}"
+            obs = receive_raw(x, issues, build_ldata(0x29, 0xBCE0, SRC, e["dst"], apdu))
+            recs.append(route_of(obs))
+            toks.append(f"r;{0xBCE0};{SRC};{e['dst']};0;{body};1")
+    out = " ; ".join(recs)
+    return {"out": out, "line": "dsec khist " + " ".join(toks), "expect": out}
+
+
+def oracle_reinit(c, out):
+    """'Current keyring' = the argument of the LAST data_secure_init."""
+    recs = out.split(" ; ")
+    i = 0
+    for n, seg in enumerate(c["segments"]):
+        keys, _ = tables_of(keyring_of(seg["keyring"]))
+        on = bool(keys)
+        if recs[i] != ("init on" if on else "init off"):
+            return f"segment {n}: data_secure_init({seg['keyring']['type']}) -> '{recs[i]}', expected {'on' if on else 'off'}"
+        i += 1
+        for e in seg["events"]:
+            r = recs[i]
+            i += 1
+            if r.startswith("raised"):
+                return f"segment {n}: {e} raised ({r})"
+            keyed = on and e["dst"] in keys and e.get("group", 1)
+            what = f"0x{e['dst']:04x} (keyring #{n} {'keys' if keyed else 'does not key'} it)"
+            if e["e"] == "in":
+                if keyed and not r.startswith("keyissue 1 "):
+                    return f"segment {n}: plain frame to group address {what} ended as '{r[:40]}', expected key issue only"
+                if not keyed and not r.startswith(f"telegram {e['apdu']} 0 "):
+                    return f"segment {n}: plain frame to group address {what} ended as '{r[:40]}', expected plain delivery"
+            elif e["e"] == "out":
+                if keyed and keys[e["dst"]] and not r.startswith("secured "):
+                    return f"segment {n}: outgoing telegram to {what} handed over as '{r[:30]}'"
+                if not keyed and r != "plain":
+                    return f"segment {n}: outgoing telegram to {what} handed over as '{r[:30]}'"
+            else:
+                if not keyed and r.startswith("telegram "):
+                    return f"segment {n}: secured frame to {what} was delivered"
+    return None
 
 
 def classify(apdu: bytes) -> str:
@@ -79,6 +242,8 @@ def generate(rng, tier):
     for apdu in valid[:6]:
         for dst, group in ((DST_KEYED, 1), (DST_FREE, 1), (0x1105, 0)):
             yield {"kind": "out", "apdu": apdu, "dst": dst, "group": group, "seq": rng.choice([5, 2**48 - 1, 2**48])}
+    for _ in range(150 * reps):
+        yield gen_reinit(rng)
     for _ in range(300 * reps):
         n = rng.choice([0, 1, 5, 9, 10, 11, 12, 20])
         scf = rng.randrange(256) if rng.random() < 0.5 else scf_raw(rng.choice([0, 1]), 0)
@@ -94,6 +259,8 @@ def setup_case(c):
 
 
 def run_impl(c):
+    if c["kind"] == "reinit":
+        return run_reinit(c)
     (r, issues), keys = setup_case(c)
     k = c["kind"]
     if k == "out":
@@ -168,6 +335,8 @@ def run_impl(c):
 
 
 def oracle(c, out):
+    if c["kind"] == "reinit":
+        return oracle_reinit(c, out)
     k = c["kind"]
     if k == "emptykey":
         return None if not out.startswith("raised") else f"empty key entry made the path raise: {out}"
@@ -216,7 +385,36 @@ def finding_key(c, msg):
 
 
 def shrink(c, msg):
-    return c
+    if c["kind"] != "reinit":
+        return c
+    want = msg.split(":")[1][:25] if ":" in msg else msg[:25]
+
+    def fails(c2):
+        try:
+            m = oracle(c2, run_impl(c2)["out"])
+        except Exception:  # noqa: BLE001
+            return False
+        return bool(m) and want in m
+
+    best = c
+    changed = True
+    while changed:
+        changed = False
+        segs = best["segments"]
+        for i in range(len(segs)):          # drop one event at a time (segment numbers stay, so the message class does)
+            for j in range(len(segs[i]["events"])):
+                c2 = {"kind": "reinit", "segments": [dict(sg, events=sg["events"][:j] + sg["events"][j + 1:]) if k == i else sg
+                                                     for k, sg in enumerate(segs)]}
+                if fails(c2):
+                    best, changed = c2, True
+                    break
+            if changed:
+                break
+        if not changed and len(segs) > 1:
+            c2 = {"kind": "reinit", "segments": segs[:-1]}
+            if fails(c2):
+                best, changed = c2, True
+    return best
 
 
 def teardown():
